@@ -41,7 +41,7 @@ PROBES = {'C17': 10, 'C04': 5, 'C03': 5, 'C08': 20, 'C07': 20}
 MIN_EVAL = {'quick': 400, 'thorough': 10000}
 REQUIRED_COUNTERS = ['cli_runs', 'idempotence_runs', 'subprocess_runs', 'multi_file', 'model:amr',
                      'model:noop', 'model:file', 'opt:reconfigure', 'opt:rearrange', 'opt:triples',
-                     'no_option_runs']
+                     'no_option_runs', 'messy_streams']
 AMR_ROLES = [':ARG0', ':ARG1', ':ARG2', ':mod', ':domain', ':op1', ':op2', ':op10', ':polarity', ':quant',
              ':name', ':consist-of', ':time', ':location', ':poss', ':beneficiary', ':role', ':foo',
              ':accompanier', ':age']
@@ -67,9 +67,12 @@ def option_set(rng):
         'dereify_edges': rng.random() < .3, 'reify_attributes': rng.random() < .3,
         'indicate_branches': rng.random() < .15, 'check': rng.random() < .2,
         'triples': rng.random() < .12,
-        'reconfigure': rng.choice([None, None, None, ['original'], ['canonical'], ['random']]),
-        'rearrange': rng.choice([None, None, ['canonical'], ['alphanumeric'], ['attributes-first'],
+        'reconfigure': rng.choice([None, None, None, None, ['original'], ['canonical'], ['random'],
+                                   ['canonical', 'original'], ['original', 'canonical']]),
+        'rearrange': rng.choice([None, None, None, ['canonical'], ['alphanumeric'], ['attributes-first'],
                                  ['attributes-first', 'alphanumeric'], ['inverted-last', 'alphanumeric'],
+                                 ['alphanumeric', 'inverted-last'], ['canonical', 'alphanumeric'],
+                                 ['alphanumeric', 'canonical'], ['inverted-last', 'canonical', 'attributes-first'],
                                  ['random'], ['canonical', 'attributes-first']]),
         'make_variables': rng.choice([None, None, '{prefix}{j}', 'v{i}']),
         'compact': rng.random() < .3,
@@ -163,6 +166,12 @@ def oracle(ctx, kind, p):
         nfiles = rng.choice([0, 0, 1, 1, 2, 3])     # 0 = stdin
         chunks = []
         nodes = []
+        # a quarter of the streams use legal but unconventional spellings (over-inverted roles,
+        # ':instance' written as a role, duplicate branches, zero-padded alignment indices,
+        # missing targets): only the pipeline-equality and format-invariance clauses apply to them
+        messy = p['i'] % 4 == 3
+        if messy:
+            ctx.count('messy_streams')
         for fi in range(max(1, nfiles)):
             trees = []
             for j in range(rng.randrange(0, 4)):
@@ -170,13 +179,29 @@ def oracle(ctx, kind, p):
                                    no_constants_like=like)
                 if not _trees.wellformed(node, rm):
                     continue
+                if messy:
+                    node = T.mangle(rng, node, rm)
+                    if any(n[0] is None for n in T.nodes(node)):
+                        continue    # nested empty nodes have no variable to relabel (outside C10/C20)
                 meta = {'id': f'{fi}.{j}'} if rng.random() < 0.5 else {}
                 if rng.random() < 0.2:
                     meta['snt'] = 'a  b ; (c)'
                 trees.append(Tree(node, metadata=meta))
                 nodes.append(node)
-            chunks.append('\n\n'.join(penman.format(t, indent=rng.choice([None, -1, 2])) for t in trees)
-                          + ('\n' if trees else ''))
+            texts_ = [penman.format(t, indent=rng.choice([None, -1, 2])) for t in trees]
+            if messy:
+                import re as _re
+                texts_ = [_re.sub(r'~(e\.)?(\d)\b', lambda m: '~' + (m.group(1) or '') + '0' + m.group(2), x)
+                          for x in texts_]
+                ok_ = []
+                for x in texts_:
+                    try:
+                        penman.parse(x)
+                        ok_.append(x)
+                    except penman.DecodeError:
+                        pass
+                texts_ = ok_
+            chunks.append('\n\n'.join(texts_) + ('\n' if texts_ else ''))
         argv = argv_of(o, mflag)
         files = []
         if nfiles:
@@ -225,7 +250,7 @@ def oracle(ctx, kind, p):
         # ---- (4) no options: output decodes to the same graphs
         normal = [k for k in ('canonicalize_roles', 'reify_edges', 'dereify_edges', 'reify_attributes',
                               'indicate_branches', 'reconfigure', 'rearrange', 'make_variables') if o[k]]
-        if not normal and not o['triples'] and not o['check']:
+        if not normal and not o['triples'] and not o['check'] and not messy:
             ctx.count('no_option_runs')
             ok, gs = ctx.call(lambda: list(penman.iterdecode(out, model=model)), clause='decode(output)')
             if ok:
@@ -246,7 +271,7 @@ def oracle(ctx, kind, p):
                                                                             a=out[:400], b=res2[1][:400]))
         # ---- (3) idempotence
         idem_ok = (not o['reconfigure'] and not o['indicate_branches'] and not o['triples']
-                   and not o['check'] and not uses_random(o))
+                   and not o['check'] and not uses_random(o) and not messy)
         if idem_ok and o['reify_edges'] and o['reify_attributes'] and any(has_inverted_attribute(nd, rm) for nd in nodes):
             idem_ok = False
         if idem_ok and o['reify_attributes'] and fmt:
